@@ -26,6 +26,7 @@ RULE = ('Generated ledgers (documents biased to directives with lists: transacti
         'every layout of <= 3 (thorough 5) meta items keyed from {aa,bb} on a transaction, a posting and a one-line directive. '
         'Non-trivial = a mutation through one view followed by a read through a different view of the same list with >= 1 element '
         'not visible in one of them.')
+RULE = RULE + ' Round 8: claim / unclaim / auto-claim calls are operations of the histories; after every operation the views of every model of the document are compared with their raw lists; enum-assign job (whole-field assignment from another model followed by every pair of eight small edits on either list).'
 ASSUMPTIONS = [
     'popitem() of the meta mappings (inherited mixin that relies on key iteration) and reverse() on node lists are outside the contract',
     'a size-changing slice assignment through a filtered/string view may be refused with ValueError (documented) or behave like a list',
